@@ -21,7 +21,7 @@ CLAIMS = {
         "note": _T + "effect classes follow the rule's group (a structure rule living in phase 5 is structural); corpus bound as C01",
     },
     "C04": {
-        "text": "Bounded: K04a proves ''.join(tokens.create(s)) == s for every string of <=2 (3) characters over U+0000..U+00FF; K04c proves the per-line pipeline (tokenizer + blank/whitespace/comment/preprocessor/pragma classification, symbolic regex) gives back every line of <=2 (3) characters inside and outside a delimited comment; K16 proves on a model file system that nothing is written without --fix and the target is untouched when no rule fixed anything; L04 proves parse+emit returns the input lines for every case variant of whole corpus files.",
+        "text": "Bounded: K04a proves ''.join(tokens.create(s)) == s for every string of <=2 (3) characters over U+0000..U+00FF; K04c proves the per-line pipeline (tokenizer + blank/whitespace/comment/preprocessor/pragma classification, symbolic regex) gives back every line of <=2 (3) characters inside and outside a delimited comment; K16 proves on a model file system that nothing is written without --fix and the target is untouched when no rule fixed anything; L04 proves parse+emit returns the input lines for every case variant of whole corpus files; K04g proves it for the classifier's token-splitting builders (selected names of use clauses / context references with 1..5 parts).",
         "design_ref": "DESIGN.md section 4 C04",
         "note": _T + "lines contain no CR/LF; file system is a model",
     },
@@ -41,7 +41,7 @@ CLAIMS = {
         "note": _T + "whitespace widths are those of the corpus and its layout variants (no symbolic widths)",
     },
     "C08": {
-        "text": "Bounded: L08 re-parses the fixed text and compares token count, roles, values and indent levels with the in-memory model, and the violations of a fresh check with those of the fix run's model; K14b proves through apply_rules + main on stub rules that the report after --fix lists each violation exactly once. K13b (stub rules, symbolic phases) proves rule_list.fix normalises the model exactly once right after phase 1 (fix_blank_lines, fix_trailing_whitespace, update_token_map); K08b proves for every token list of <=7 (8) tokens that this clean-up leaves the model in the form a fresh parse has (no blank before a line break, every empty line a blank_line token) and is idempotent.",
+        "text": "Bounded: L08 re-parses the fixed text and compares token count, roles, values and indent levels with the in-memory model, and the violations of a fresh check with those of the fix run's model; K14b proves through apply_rules + main on stub rules that the report after --fix lists each violation exactly once. K13b (stub rules, symbolic phases) proves rule_list.fix normalises the model exactly once right after phase 1 (fix_blank_lines, fix_trailing_whitespace, update_token_map); K08b proves for every token list of <=7 (8) tokens that this clean-up leaves the model in the form a fresh parse has (no blank before a line break, every empty line a blank_line token) and is idempotent. K08c runs the real fix of every shipped whitespace_between_tokens rule on its own fixture under every documented spelling of number_of_spaces (N, >N, >=N, N+, <N, <=N; N in 0..3, engine-forked) and proves the model equals a fresh parse of the written text (no zero-width token) and the rule reports the same on both.",
         "design_ref": "DESIGN.md section 4 C08",
         "note": _T + "corpus bound as C01",
     },
@@ -51,7 +51,7 @@ CLAIMS = {
         "note": _T + "corpus bound as C01; two iterations",
     },
     "C10": {
-        "text": "Bounded: L10 applies every rule that changed something a second time right away (same rule object, live model) and proves the model is unchanged.",
+        "text": "Bounded: L10 applies every rule that changed something a second time right away (same rule object, live model) and proves the model is unchanged. K08c: for every shipped whitespace_between_tokens rule on its own fixture and every documented spelling of number_of_spaces (6 operators x N in 0..3), a fresh check of the text the rule's fix wrote reports nothing for that rule.",
         "design_ref": "DESIGN.md section 4 C10",
         "note": _T + "corpus bound as C01",
     },
@@ -61,7 +61,7 @@ CLAIMS = {
         "note": _T + "token list built directly from parser.* objects; an id-carrying vsg_on under an active bare vsg_off is unspecified by the documentation and skipped",
     },
     "C12": {
-        "text": "Bounded: K12a configures real rules through the real apply_rules.configure_rules / rule_list.configure / rule.configure with one attribute present or absent (symbolic) at each of the five levels with symbolic values and proves the effective value is the one of the most specific level; K12b proves later-file-wins merging; K12d proves unknown or deprecated rule names (every string <=6 chars over an 8-symbol alphabet) are configuration errors at top level and in per-file sections.",
+        "text": "Bounded: K12a configures real rules through the real apply_rules.configure_rules / rule_list.configure / rule.configure with one attribute present or absent (symbolic) at each of the five levels with symbolic values and proves the effective value is the one of the most specific level and, for phase and disable, that the real rule_list.check_rules and rule_list.fix (real constructor, stub rule loader) schedule both rules by exactly that value; K12b proves later-file-wins merging; K12d proves unknown or deprecated rule names (every string <=6 chars over an 8-symbol alphabet) are configuration errors at top level and in per-file sections.",
         "design_ref": "DESIGN.md section 4, C12 (K12a, K12b, K12d)",
         "note": _T + "YAML/JSON parsing, glob and $VAR expansion are outside; dictionaries are built directly",
     },
@@ -71,14 +71,14 @@ CLAIMS = {
         "note": _T + "stub rules; at most 3 rules",
     },
     "C14": {
-        "text": "Bounded: K14a renders the six output formats with the real report code for 1-2 (3) rules x 0..2 violations on symbolic lines x 4 severities (two user-defined), parses them back and proves with z3 that all are consistent projections of one violation set and that printed counts equal listed entries; K14b proves exit status 0 iff no error-severity violation and no processing error over 1-2 (3) files.",
+        "text": "Bounded: K14a renders the six output formats with the real report code for 1-2 (3) rules x 0..2 violations on symbolic lines x 4 severities (two user-defined), parses them back and proves with z3 that all are consistent projections of one violation set and that printed counts equal listed entries; K14b proves exit status 0 iff no error-severity violation and no processing error over 1-2 (3) files, and that after a plain or --fix run through the real main/apply_rules the counts printed in each file's header equal the rows listed under it and the JSON entries.",
         "design_ref": "DESIGN.md section 4, C14 (K14a, K14b)",
         "note": _T + "solution text fixed; single-digit line numbers; md5 fingerprint stubbed; file writing captured in memory",
     },
     "C16": {
         "text": "Bounded fault/crash enumeration decided symbolically: K16 runs the real apply_rules/write_vhdl_file/create_backup_file over a model file system with a symbolic fault position and kind and a symbolic crash point; z3 proves at every crash point and after every single fault that the target holds the complete original or complete fixed text with its original mode, that the temp file is gone after non-fatal failures, that the backup is faithful and that rejected files are untouched (thorough: two faults per run). K04f reads real UTF-8 / ISO-8859-1 files through read_vhdlfile with the non-ASCII byte at engine-forked offsets around the buffer boundary: every line exactly once.",
         "design_ref": "DESIGN.md section 4, C16 (K16)",
-        "note": _T + "os.replace atomic; a failing call affects only its own file; umask arbitrary; single fault per run",
+        "note": _T + "os.replace atomic; a failing call affects only its own file; umask arbitrary; whether the target is a symbolic link or has a second hard link is an arbitrary environment value; an in-place copy (shutil.copyfile/copy) truncates first; single fault per run",
     },
     "C20": {
         "text": "Bounded: K20a proves for one rule with 0..2 (3) violations on symbolic lines and every shape of the selection document that rule.fix repairs exactly the listed lines (all for 'all'), in file order; K20b proves all-rules-all == plain fix, empty selection fixes nothing, and a one-rule selection leaves the other rule untouched; L15b checks on corpus file pairs that a selection applies to every file of a run.",
